@@ -173,6 +173,16 @@ PROPS = {
                      'a failure of an activity in the very time step in which the consumer leaves the loop may go unnoticed (both orders accepted)'],
         partial=[],
     ),
+    'C18': dict(
+        gen=['Py', 'Scope'], props=['C18', 'C05', 'Skeletons'], model=['Machine/Run', 'Machine/Step', 'Judge/Judges'], harness='c18',
+        trusted_base=KERNEL_TB + MACHINE_TB + [
+            'translated from source: trigger-once guards, interrupt acceptance and queue discipline, AllOf/AnyOf evaluation, Timeout/until guards, schedule\'s delay normalisation; all 95 definitions of usim/py pinned against recorded skeletons',
+            'the coroutines of usim/py (Process._run_payload, _wait_interruptible, Condition._check_events, Event._invoke_callbacks, AwaitableEvent.wait_interruptible, Environment.until/__aenter__) are hand-modelled as frames of the machine and tied by exact trace correspondence only',
+            'SimPy programs are written in a small instruction language (one instruction per generator statement); Python generator mechanics (send/throw/StopIteration) are modelled'],
+        assumptions=['a delay of d resumes at now + d, wake-ups of one time step run in order (C01, C02); scopes report failures (C05)',
+                     'judge: in ties within one time step (a member failing while another fires, an Interrupt-valued event while an interrupt is pending) both readings are accepted'],
+        partial=[],
+    ),
     'C20': dict(
         gen=['Timing', 'Scope'], props=['C20', 'C02', 'Skeletons'], model=['Machine/Run', 'Machine/Step', 'Judge/Judges'], harness='c20',
         trusted_base=KERNEL_TB + MACHINE_TB + ['templates: postpone/suspend/__await__ of conditions, Scope.__aexit__; the per-operation code paths are hand-modelled in Machine/Run.lean and tied by exact trace correspondence'],
@@ -348,6 +358,22 @@ MANIFEST_TEXT = {
              'observation outside the statement: a failing activity while the consumer is inside its loop body surfaces as the private CancelScope signal (F14, DESIGN.md)',
         technique='Lean 4 proof over the frame machine + exact whole-machine differential traces + Lean trace judge',
         design_ref='6 (C16)'),
+    'C18': dict(
+        level='Lean 4 theorems for every world state on the machine\'s model of usim/py, tied to decisions translated from '
+              'events.py/core.py on every run: a second trigger is refused and changes nothing, the first stores exactly its value, a '
+              'value once set is final (trigger_twice_refused, trigger_sets_value, value_is_final), callbacks run in one step and '
+              'never twice, an undefused failure raises in the callback task and until() unwraps it (callbacks_run_once, '
+              'callbacks_not_twice, undefused_failure_raises, until_unwraps_failure), interrupts are ignored for finished processes, '
+              'queued in call order and delivered one per yield oldest first before the awaited value (interrupt_*), timeouts '
+              'sleep exactly their delay, processes fire with the generator\'s return value / exception also before the first '
+              'yield (process_returns, process_fails; finding F15 repaired), condition values expose only fired members, until(t) '
+              'refuses past dates and stops on StopSimulation. The whole SimPy layer is part of the exact whole-machine '
+              'correspondence (random process graphs with timeouts, shared events, conditions, interrupts, callbacks, native '
+              'awaitables and activities, env.until(None|t|event), async with env); a Lean judge checks resume times, values, '
+              'interrupt order, fire-once, callback counts and until on implementation traces.',
+        note='trusted: Lean kernel + standard axioms; translator; the frame model of the usim/py coroutines is tied by correspondence only',
+        technique='Lean 4 proof over the frame machine + exact whole-machine differential traces + Lean trace judge',
+        design_ref='6 (C18)'),
     'C20': dict(
         level='Lean 4 theorems for every world state: postpone() always hibernates the caller and queues its wake-up behind '
               'everything already runnable (postpone_hibernates, with C02 fifo_now); each listed operation in a state where it '
